@@ -35,6 +35,12 @@ Next == /\ st.ph = "shard"
                    /\ LET ref == Mk(st.pre, c, r, sh, d) IN
                       /\ st' = [ph |-> "case", ref |-> ref, own |-> st.own, qa |-> qa]
                       /\ PrintT(ToJson(Out(ref, st.own, qa)))
+           \/ /\ Kind = "BEYOND"       \* areas that reach beyond the stored rows / columns of the sheet (5 used rows, 7 used columns)
+              /\ \E c \in {1, 6, 7}, r \in {4, 5, 6}, er \in 0..2, ec \in 0..2, dd \in {<<FALSE, FALSE, FALSE, FALSE>>, <<TRUE, TRUE, TRUE, TRUE>>} :
+                   LET ref == Mk(st.pre, c, r, <<"area", er, ec>>, dd) IN
+                   /\ (er + ec > 0)
+                   /\ st' = [ph |-> "case", ref |-> ref, own |-> st.own, qa |-> FALSE]
+                   /\ PrintT(ToJson(Out(ref, st.own, FALSE)))
            \/ /\ Kind = "WCOL"
               /\ \E c \in {1, 2, 3}, w \in 0..2, dd \in {<<FALSE, FALSE>>, <<TRUE, TRUE>>, <<TRUE, FALSE>>} :
                    LET ref == WMk(st.pre, c, w, <<dd[1], FALSE, dd[2], FALSE>>) IN
